@@ -23,7 +23,8 @@ for p in props:
             "design_ref": f"DESIGN.md section 4, {p['id']}",
         },
         "level_note": "Static analysis only (no execution, no solver). Decides structural necessary conditions on every CFG path / call chain of the current tree; NOT decided: " + r["NotDecided"] + ". Trusted base: go/packages, go/types, go/ssa, VTA call graph (x/tools v0.50.0), the checker itself; assumptions A1-A6 of DESIGN.md section 3 (dev_mode off, default query table, stable registry within one iteration, no reflect/unsafe).",
-        "technique": techniques.get(p["id"], "static analysis: CFG gate/ordering rules and effect containment over go/ssa"),
+        "technique": techniques.get(p["id"], "static analysis: CFG gate/ordering rules and effect containment over go/ssa")
+        + "; analysed on the source normalised by overlay (pure renames undone, functions absent from the pinned tree inlined back, equivalent spellings of comparisons saturated) — nothing is executed",
     })
 na = [{"property_id": p["id"], "reason": "checker under construction: no rule implemented yet (see DESIGN.md section 4 for the planned static rules)"} for p in props if p["id"] not in claimed]
 m = {
